@@ -1646,6 +1646,9 @@ pub fn gen_ops_c13(rng: &mut SimRng, thorough: bool) -> Vec<Op> {
 		Op::Submit { kind: Submit::JustMatureCoinbase, stem: false, r: rng.next_u64() },
 		Op::Submit { kind: Submit::ImmatureCoinbase, stem: false, r: rng.next_u64() },
 		Op::Submit { kind: Submit::MixedMaturityCoinbases, stem: false, r: rng.next_u64() },
+		// an aggregate is locked until the latest of its kernels' lock heights, wherever that kernel sorts
+		Op::Submit { kind: Submit::AggregatedMixedLocks, stem: false, r: rng.next_u64() },
+		Op::Submit { kind: Submit::AggregatedMixedLocks, stem: false, r: rng.next_u64() },
 	];
 	for (i, op) in seq.into_iter().enumerate() {
 		ops.insert(at + i, op);
@@ -1787,7 +1790,7 @@ pub fn case_c13(tier: &str, seed: u64, case: u64) -> CaseResult {
 		}
 		res.extra.insert("poolsim_runs".into(), json!(res.runs));
 		if let Some(v) = v {
-			let relevant = ["ImmatureCoinbase", "JustMatureCoinbase", "LockFuture", "LockNext", "MixedMaturityCoinbases", "NrdRecentDuplicate", "NrdJustOldEnough", "NrdFresh"].iter().any(|k| v.key == format!("C14:submit-result:{}", k));
+			let relevant = ["ImmatureCoinbase", "JustMatureCoinbase", "LockFuture", "LockNext", "MixedMaturityCoinbases", "NrdRecentDuplicate", "NrdJustOldEnough", "NrdFresh", "AggregatedMixedLocks"].iter().any(|k| v.key == format!("C14:submit-result:{}", k));
 			if relevant {
 				res.violations.push(Violation {
 					key: v.key.replace("C14:submit-result:", "C13:pool-answer:"),
